@@ -305,6 +305,7 @@ def run(ctx):
             SEC + 'version_manager::VersionManager::rewrite_changes'})
         ctx.ob(R4, f'{root}→{kind}', ok, f'file creation `{c.fn}` in {c.body.name}: data files (column, index, DV) must be '
                f'create_new; only the manifest may be opened with create', [site(c.body, c.bb)])
+    rule_r5(ctx, prog)
 
 
 def is_promoted_variant(body, v, variant):
@@ -316,3 +317,32 @@ def is_promoted_variant(body, v, variant):
     if i >= len(pr):
         return False
     return any(s['rv'].get('rv') == 'agg' and s['rv'].get('variant') == variant for s in pr[i])
+
+
+def rule_r5(ctx, prog):
+    """orphan vacuum at boot"""
+    R5 = 'C04-R5'
+    ctx.rule(R5, 'bootstrap discovers orphan row-set directories (left by a crash before the manifest append) by enumerating '
+                 'the storage directory: the path it unlinks derives from a DirEntry, under a membership test against the '
+                 'row-sets the manifest lists; a manifest-driven vacuum can never see an orphan')
+    b = prog.body(BOOTSTRAP)
+    if not ctx.anchor(R5, BOOTSTRAP, b is not None):
+        return
+    rms = [c for c in b.calls if (c.fn or '').endswith('fs::remove_dir_all')]
+    rd = done_sites(prog, b, 'tokio::fs::read_dir')
+    ne = done_sites(prog, b, 'tokio::fs::ReadDir::next_entry')
+    if not ctx.anchor(R5, 'bootstrap:remove_dir_all', rms):
+        return
+    ctx.ob(R5, 'bootstrap·enumerates-directory', bool(rd) and bool(ne),
+           f'bootstrap must list the storage directory (read_dir blocks {rd}, next_entry blocks {ne})')
+    for c in rms:
+        def from_entry(kind, payload, bb):
+            return kind == 'call' and (payload.get('fn') or '').endswith('tokio::fs::DirEntry::path')
+        ok = c.args and c.args[0]['k'] != 'const' and flows_from(b, c.args[0]['pl']['l'], from_entry, depth=6)
+        ctx.ob(R5, 'bootstrap·unlinks-enumerated-entry', bool(ok),
+               'the directory removed at boot must be one found by enumeration (DirEntry::path), so that orphans are seen',
+               [site(b, c.bb)])
+        ck = [x.bb for x in b.calls if re.search(r'HashMap::<.*>::contains_key$', x.name or '')]
+        ctx.ob(R5, 'bootstrap·membership-test≺unlink', bool(ck) and b.dominated_by_any(set(ck), c.bb),
+               f'removal (block {c.bb}) must be dominated by a contains_key test on the row-sets to open (blocks {ck})',
+               [site(b, c.bb)])
